@@ -113,15 +113,29 @@ def gen_case(r, family="A", force_mode=None):
             p["species"] = "A"
     if two and not any(p["species"] == "B" for p in parts):
         parts[-1]["species"] = "B"
+    # frozen (wall) particles: never move, never count for the displacement criterion, but their pairs with free particles are
+    # listed (frozen list) and must be cleared and rebuilt like the free ones
+    nfrozen = 0
+    if r.random() < 0.45:
+        for k, p in enumerate(parts):
+            if (mode != "headon" or k > 1) and r.random() < 0.5:
+                p["frozen"] = True
+                p["v"] = [F(0)] * 3
+                nfrozen += 1
+        for sp_ in spec:      # every species needs at least one free particle (its position integrator needs one)
+            if not any(p["species"] == sp_ and not p.get("frozen") for p in parts):
+                q = [p for p in parts if p["species"] == sp_][0]
+                q["frozen"] = False
+                nfrozen -= 1
     force = "0*[rij]" if family == "A" else r.choice(["[rij]", "(1/2)*[rij]", "[rij]+(1/4)*[vij]".replace("[vij]", "([vi]-[vj])")])
     sc = {"box": [symlib.rat(x) for x in L], "periodic": periodic,
           "controller": {"dt": symlib.rat(dt), "timesteps": nsteps},
           "integrators": [["IntegratorVelocityVerletDisp", {"species": sp, "lambda": "1/2", "mass": "1", "displacement": "displacement", "symbol": "ds"}] for sp in spec],
           "modules": [["FPairVels", {"species1": sa, "species2": sb, "cutoff": symlib.rat(rc), "pairFactor": force}] for sa in spec for sb in spec if sa <= sb],
           "pair_creator": ["VerletCreator", {"skinSize": symlib.rat(skin), "every": every, "displacement": "displacement"}],
-          "particles": [{"species": p["species"], "r": [symlib.rat(x) for x in p["r"]], "v": [symlib.rat(x) for x in p["v"]]} for p in parts],
+          "particles": [{"species": p["species"], "frozen": bool(p.get("frozen")), "r": [symlib.rat(x) for x in p["r"]], "v": [symlib.rat(x) for x in p["v"]]} for p in parts],
           "species_order": spec}
-    meta = dict(rc=rc, skin=skin, L=L, periodic=periodic, every=every, dt=dt, nsteps=nsteps, mode=mode, family=family, species=len(spec))
+    meta = dict(nfrozen=nfrozen, rc=rc, skin=skin, L=L, periodic=periodic, every=every, dt=dt, nsteps=nsteps, mode=mode, family=family, species=len(spec))
     return sc, meta
 
 
@@ -161,15 +175,17 @@ def oracle_step(step, meta):
         return errs
     rc = meta["rc"]
     L, per = meta["L"], meta["periodic"]
-    ps = {(p["colour"], p["slot"]): p for p in step["particles"] if not p["frozen"]}
+    ps = {(p["colour"], int(bool(p["frozen"])), p["slot"]): p for p in step["particles"]}
     listed = {}
     for pr in step["pairs"]:
-        a, b = (pr["c1"], pr["s1"]), (pr["c2"], pr["s2"])
+        a, b = (pr["c1"], pr["fz1"], pr["s1"]), (pr["c2"], pr["fz2"], pr["s2"])
         key = (min(a, b), max(a, b))
         listed.setdefault(key, []).append(pr)
     ids = sorted(ps)
     for i in range(len(ids)):
         for j in range(i + 1, len(ids)):
+            if ids[i][1] and ids[j][1]:
+                continue                      # frozen-frozen pairs are never listed
             a, b = ps[ids[i]], ps[ids[j]]
             d = minimg([x - y for x, y in zip(a["r"], b["r"])], L, per)
             d2 = sum(x * x for x in d)
@@ -181,12 +197,15 @@ def oracle_step(step, meta):
                     errs.append("pair %s is listed %d times" % (key, len(listed[key])))
     for key, prs in listed.items():
         for pr in prs:
-            a, b = ps[(pr["c1"], pr["s1"])], ps[(pr["c2"], pr["s2"])]
+            a, b = ps[(pr["c1"], pr["fz1"], pr["s1"])], ps[(pr["c2"], pr["fz2"], pr["s2"])]
             d = minimg([x - y for x, y in zip(a["r"], b["r"])], L, per)
             true2 = sum(x * x for x in d)
-            if pr["abs2"] < rc * rc and (pr["d"] != d):
+            # the refreshed vector is a double subtraction of two doubles: equal to the exact difference up to one rounding once bit
+            # growth (runs with forces) has left the exactly representable range; a STALE vector differs by O(v dt)
+            same = all(abs(x - y) <= F(1, 2 ** 36) * max(1, abs(y)) for x, y in zip(pr["d"], d))
+            if pr["abs2"] < rc * rc and not same:
                 errs.append("listed pair %s reports separation %s (< cutoff) but the true current separation is %s" % (key, [str(x) for x in pr["d"]], [str(x) for x in d]))
-            if true2 < rc * rc and pr["d"] != d:
+            if true2 < rc * rc and not same:
                 errs.append("pair %s inside the cutoff is listed with separation %s instead of the current %s" % (key, [str(x) for x in pr["d"]], [str(x) for x in d]))
     return errs
 
@@ -219,9 +238,9 @@ def model_requests(steps, meta):
                          "step %d rebuild decision" % st["step"]))
         if not rebuilt:
             # refreshed distances of all listed pairs
-            pmap = {(p["colour"], p["slot"]): p for p in ps}
+            pmap = {(p["colour"], int(bool(p["frozen"])), p["slot"]): p for p in st["particles"]}
             for pr in st["pairs"][:40]:
-                raw = [a - b for a, b in zip(pmap[(pr["c1"], pr["s1"])]["r"], pmap[(pr["c2"], pr["s2"])]["r"])]
+                raw = [a - b for a, b in zip(pmap[(pr["c1"], pr["fz1"], pr["s1"])]["r"], pmap[(pr["c2"], pr["fz2"], pr["s2"])]["r"])]
                 reqs.append(("wrapvec %s %s" % (" ".join(symlib.rat(x) for x in meta["L"]), " ".join(symlib.rat(x) for x in raw)),
                              "wrapvec " + ",".join(symlib.rat(x) for x in pr["d"]), "step %d refreshed pair %d-%d" % (st["step"], pr["s1"], pr["s2"])))
     if meta["every"] > 0:
